@@ -310,8 +310,59 @@ func (en *Env) toInt(tv TV) *Term {
 	return e.ar.Conv(n, tInt, tv.V.(VScalar).T)
 }
 
+func (e *Engine) ghostType(name string) types.Type {
+	for _, ps := range e.specs {
+		if ts, ok := ps.Ghosts[name]; ok {
+			switch ts {
+			case "[]byte":
+				return types.NewSlice(byteType)
+			case "error":
+				return types.Universe.Lookup("error").Type()
+			}
+			if t, ok := basicTypes[ts]; ok {
+				return t
+			}
+			panic(evalErr("unsupported ghost type " + ts))
+		}
+	}
+	return nil
+}
+
+func ghostHandle(v Val) *Term {
+	switch h := v.(type) {
+	case VIface:
+		return h.Ref
+	case VRef:
+		return h.T
+	case VScalar:
+		return h.T
+	}
+	return nil
+}
+
+func (en *Env) ghostLoad(name string, h *Term) TV {
+	e := en.x.e
+	t := e.ghostType(name)
+	if t == nil {
+		en.fail("undeclared ghost field %s", name)
+	}
+	ls := e.leaves(t)
+	ts := make([]*Term, len(ls))
+	for i, l := range ls {
+		ts[i] = SelectD(heapGetIn(en.heap, "Gh_"+name[1:]+"_"+l.Name, e.fldSort(l.S)), h)
+	}
+	return TV{V: e.fromLeaves(t, ts), T: t}
+}
+
 func (en *Env) selector(b TV, sel string) TV {
 	st := en.st
+	if strings.HasPrefix(sel, "$") {
+		h := ghostHandle(b.V)
+		if h == nil {
+			en.fail("ghost field %s of a value without identity", sel)
+		}
+		return en.ghostLoad(sel, h)
+	}
 	t := b.T
 	if t == nil {
 		en.fail("selector .%s on untyped value", sel)
